@@ -82,7 +82,14 @@ def run(ck):
                 allowed_lo, _ = sign_set(o, val)
                 allowed_hi, _ = sign_set(o, 1 - val)
                 vok = vok and allowed_lo <= {0, 1} and allowed_hi <= {0, 1}
+            from ..symeval import path_rejects_nan
+            va = val.single_atom()
+            nan_ok = bool(passing) and va is not None and all(path_rejects_nan(o.trace, va) for o in passing)
     ck.ob("Z1", "Composition", "constructing a composition raises unless 0 <= p <= 1", C.module.relpath + ":%d" % C.node.lineno, vok, sample=True)
+    if vok:
+        ck.ob("Z1", "Composition", "constructing a composition with a NaN fraction raises (accepting paths rest on a comparison that came out true)",
+              C.module.relpath + ":%d" % C.node.lineno, nan_ok,
+              "an accepting path decided only by comparisons that are false lets NaN through: a NaN fraction would be reported as a valid state")
     hits = attribute_writes(repo, "Composition", "p")
     ck.ob("Z1", "package", "no statement assigns Composition.p after construction", C.module.relpath, not hits,
           "; ".join("%s in %s" % (f.loc(n), f.qualname) for f, n, _ in hits))
